@@ -63,7 +63,7 @@ def _session_problems(session, obj, label):
 
 
 STEPS = ['cli_query', 'cli_query_sigs', 'cli_query_json', 'cli_dist_db', 'cli_siginfo_db', 'cli_siginfo_ids', 'cli_tree_db', 'cli_fail_query', 'cli_fail_dist',
-         'lib_load_query', 'lib_load_genomeset', 'lib_sessionmaker_explicit', 'lib_sessionmaker_default', 'lib_load_signatures', 'lib_dist', 'lib_clictx', 'lib_tree']
+         'lib_load_query', 'lib_load_genomeset', 'lib_sessionmaker_explicit', 'lib_sessionmaker_default', 'lib_load_signatures', 'lib_dist', 'lib_clictx', 'lib_tree', 'lib_browse', 'lib_browse_drop']
 
 
 def run_case(case):
@@ -161,6 +161,24 @@ def run_case(case):
 						s = cc.get_session() if hasattr(cc, 'get_session') else cc.Session()
 						problems += _session_problems(s, s.query(ReferenceGenomeSet).one(), 'CLIContext session')
 						keep.append(db)
+				elif step in ('lib_browse', 'lib_browse_drop'):
+					# read-side browsing of the taxonomy through every relationship / secondary index, then the session goes away
+					import gc
+					session, gset = load_genomeset(gfile)
+					roots = list(gset.root_taxa())
+					seen = 0
+					for r_ in roots[:3]:
+						for t_ in r_.traverse():
+							seen += len(list(t_.children)) + len(list(t_.genomes))
+						seen += len(list(r_.subtree_genomes())) + len(list(r_.leaves()))
+					_ = [g.taxon.lineage() for g in gset.genomes[:5]]
+					session.query(Genome).filter(Genome.key != '').count()
+					if step == 'lib_browse':
+						session.close()
+						session.get_bind().dispose()
+					else:
+						del session, gset, roots
+					gc.collect()
 				elif step == 'lib_tree':
 					from gambit.metric import jaccarddist_pairwise
 					from gambit.cluster import hclust, linkage_to_bio_tree
@@ -178,6 +196,7 @@ def run_case(case):
 				problems.append(f'database directory contents changed after step {step_no} {step}: {sorted(set(os.listdir(dbdir)) ^ set(listing))}')
 			if problems:
 				return {'ok': False, 'expected': 'files byte-identical, default sessions read-only', 'actual': {'after_steps': case['steps'][:step_no + 1], 'problems': problems[:4]}}
+		import gc
 		for k in keep:
 			for attr in ('session', 'signatures'):
 				o = getattr(k, attr, None)
@@ -185,6 +204,15 @@ def run_case(case):
 					o.close()
 			if hasattr(k, 'close'):
 				k.close()
+		for k in keep:
+			b_ = getattr(getattr(k, 'session', k), 'get_bind', None)
+			try:
+				if b_ is not None:
+					b_().dispose()
+			except Exception:
+				pass
+		del keep
+		gc.collect()
 		after = {p: _sha(p) for p in (gfile, sfile)}
 		ok = after == before and sorted(os.listdir(dbdir)) == listing
 		return {'ok': ok, 'expected': 'files byte-identical after closing everything', 'actual': 'ok' if ok else 'changed on close'}
